@@ -43,3 +43,11 @@ Proof. exact null_attribute_exists. Qed.
 Theorem C06_connectives :
   forall a b, eval_infix AND (VBool a) (VBool b) = of_bool (a && b) /\ eval_infix OR (VBool a) (VBool b) = of_bool (a || b).
 Proof. exact connectives. Qed.
+
+(* the precedence chain as the parser applies it: with any of the six comparators in each position,
+   "NOT a c1 :x AND b c2 :y OR c c3 :z" parses as (((NOT (a c1 :x)) AND (b c2 :y)) OR (c c3 :z)) and
+   "a c1 :x OR b c2 :y AND NOT c c3 :z" as ((a c1 :x) OR ((b c2 :y) AND (NOT (c c3 :z)))), without parser errors
+   (a finite sweep - 216 combinations, fixed operand names - evaluated in the kernel) *)
+Theorem C06_precedence_grouping :
+  forall c1 c2 c3, In c1 comparators -> In c2 comparators -> In c3 comparators -> groups_by_precedence c1 c2 c3 = true.
+Proof. exact precedence_grouping. Qed.
